@@ -602,9 +602,6 @@ func scenC07(r *Run, judged bool) {
 		for ci, c := range act {
 			ki := u.Key(c)
 			m.key(c)
-			if judged && strings.HasPrefix(string(act), "\x00burst") {
-				// (never generated: placeholder to keep the marker out of real input)
-			}
 			if judged && burstAction(act) && ci < len(act)-1 {
 				// no settling inside a burst: the next key is pressed as soon as this one was
 				// handled, while the surroundings of the new page are still being loaded
